@@ -301,3 +301,23 @@ func mayAuth(c *Conn) bool {
 //@ func (c *Conn) handleStartTLS(tag string, dec *imapwire.Decoder) (err error)
 //@   panics assumed-unreachable io.CopyN of exactly Buffered() bytes from a bufio.Reader into a bytes.Buffer cannot fail (stdlib contract)
 //@   ensures c.state == old(c.state)
+
+// ---------------------------------------------------------------------------
+// C07: Poll dequeues a prefix of the queue, in order, and without permission
+// to report expunges exactly the longest expunge-free prefix; the remaining
+// queue is the untouched suffix.
+
+//@ func (t *SessionTracker) Poll(w *UpdateWriter, allowExpunge bool) (err error)
+//@   props C07:post,inv-init,inv-step,terminates,pre@call
+//@   requires t != nil && w != nil
+//@   ensures allowExpunge ==> len(t.queue) == 0
+//@   ensures !allowExpunge ==> len(t.queue) <= old(len(t.queue))
+//@   ensures !allowExpunge ==> forall j int :: 0 <= j && j < len(t.queue) ==> __same(t.queue[j], old(t.queue)[j+(old(len(t.queue))-len(t.queue))])
+//@   ensures !allowExpunge ==> forall j int :: 0 <= j && j < old(len(t.queue))-len(t.queue) ==> old(t.queue[j].expunge) == 0
+//@   ensures !allowExpunge && len(t.queue) > 0 ==> t.queue[0].expunge != 0
+//@   loop 0 vars (ups []trackerUpdate, i int)
+//@   loop 0 invariant -1 <= i && i <= len(t.queue)-1 && __fresh(ups)
+//@   loop 0 invariant forall j int :: 0 <= j && j <= i ==> t.queue[j].expunge == 0
+//@   loop 0 invariant forall j int :: 0 <= j && j < len(t.queue) ==> __same(t.queue[j], old(t.queue[j]))
+//@   loop 0 invariant forall j int :: 0 <= j && j <= i ==> old(t.queue[j].expunge) == 0
+//@   loop 0 decreases len(t.queue) - i
